@@ -287,7 +287,7 @@ func cmdCheck(args []string) int {
 	} else {
 		fmt.Fprintln(os.Stderr, "SMT files in", dir)
 	}
-	timeout := 10 * time.Second
+	timeout := 15 * time.Second
 	if *tier == "thorough" {
 		timeout = 120 * time.Second
 	}
